@@ -30,6 +30,9 @@ def stepC18 : Step := fun toks =>
   | ["amt_possub", a, b] => do
     let a ← a.toInt?; let b ← b.toInt?
     pure ((match positiveSub a b with | some r => showOI r | none => "unmodelled"), showOI (if 0 ≤ b ∧ b ≤ a then some (a - b) else none))
+  | ["amt_abs", a] => do let a ← a.toInt?; pure (showRes (absOp a), (if a = -(2^63) then "panic" else s!"val {a.natAbs}"))
+  | ["amt_checked_abs", a] => do let a ← a.toInt?; pure (showOI (checkedAbs a), showOI (if a = -(2^63) then none else some (a.natAbs : Int)))
+  | ["amt_signum", a] => do let a ← a.toInt?; pure (toString (signum a), toString (Int.sign a))
   | _ => none
 
 end Drv
